@@ -285,7 +285,17 @@ func scenarioSign[G algebra.PrimeGroupElement[G, S], S algebra.PrimeFieldElement
 					if err != nil {
 						return nil, err
 					}
-					ps, err := fl.sign(ctx, rt.Namespaced(ns+"-sign"), sctx, shards[id], compiler.Name(fiatshamir.Name), msg, rnd)
+					myMsg := msg
+					if rc.Params["altmsg"] == fmt.Sprint(id) && ns == "A" {
+						myMsg = []byte("another message, signed by one cosigner only") // own-other-input inventory
+					}
+					var ps any
+					var keepAgg func(map[sim.ID]any, []byte) ([]byte, any, error)
+					if fl.signKeep != nil && id == agg {
+						ps, keepAgg, err = fl.signKeep(ctx, rt.Namespaced(ns+"-sign"), sctx, shards[id], compiler.Name(fiatshamir.Name), myMsg, rnd)
+					} else {
+						ps, err = fl.sign(ctx, rt.Namespaced(ns+"-sign"), sctx, shards[id], compiler.Name(fiatshamir.Name), myMsg, rnd)
+					}
 					if err != nil {
 						return nil, err
 					}
@@ -315,7 +325,12 @@ func scenarioSign[G algebra.PrimeGroupElement[G, S], S algebra.PrimeFieldElement
 						}
 						partials[q] = p
 					}
-					_, sig, err := fl.aggregate(shards[agg], partials, msg, rnd)
+					var sig any
+					if keepAgg != nil {
+						_, sig, err = keepAgg(partials, msg) // cosigning aggregator (identifiable-abort path)
+					} else {
+						_, sig, err = fl.aggregate(shards[agg], partials, msg, rnd)
+					}
 					if err != nil {
 						return nil, err
 					}
@@ -507,8 +522,70 @@ func c04Cells(t *testing.T, sc *c04Scenario, seed sim.Seed) ([]map[string]string
 			p["cell"] = fmt.Sprintf("%s|c=%s|%s", sc.name, posLabel(c, ps), ce.label)
 			out = append(out, p)
 		}
+		// Semantic deviations the byte-level operators cannot forge: the message the
+		// corrupt party itself would have sent in an execution that is identical except
+		// for (a) its own protocol-stage coins, (b) its own input (signing scenarios:
+		// another message). Proofs in such a message are valid and bound to the right
+		// identity and session; only the binding to the party's *earlier* messages (or
+		// to the agreed input) is broken.
+		alts := map[string]map[string]string{"own-other-coins": {"alt": fmt.Sprintf("%d|A/proto|y", c)}}
+		if strings.Contains(strings.Join(sc.only, ","), "sign/") {
+			alts["own-other-input"] = map[string]string{"altmsg": fmt.Sprint(c)}
+		}
+		for _, an := range []string{"own-other-coins", "own-other-input"} {
+			ap, ok := alts[an]
+			if !ok {
+				continue
+			}
+			alog, err := altInventory(t, sc, seed, an+fmt.Sprint(c), ap)
+			if err != nil {
+				return nil, err
+			}
+			for _, w := range log {
+				if w.From != c || !strings.HasPrefix(w.CID, "A-") || !inOnly(sc, w.CID) {
+					continue
+				}
+				for _, a := range alog {
+					if a.From == w.From && a.CID == w.CID && a.To == w.To && a.Broadcast == w.Broadcast && string(a.Body) != string(w.Body) {
+						tm := tamper{CID: w.CID, To: w.To, Op: "replaymsg", Arg: hex.EncodeToString(a.Body)}
+						p := tm.params()
+						p["scenario"] = sc.name
+						p["corrupt"] = fmt.Sprint(c)
+						p["cell"] = fmt.Sprintf("%s|c=%s|%s|to=%s|(message)|replaymsg:%s", sc.name, posLabel(c, ps), stripNS(w.CID), toLabel(w.To), an)
+						out = append(out, p)
+					}
+				}
+			}
+		}
 	}
 	return out, nil
+}
+
+// altInventory records an honest run that differs from the inventory run in one party's coins or input.
+func altInventory(t *testing.T, sc *c04Scenario, seed sim.Seed, tag string, params map[string]string) ([]wireMsg, error) {
+	invMu.Lock()
+	defer invMu.Unlock()
+	key := sc.name + seed.Hex() + "|" + tag
+	if log, ok := invCache[key]; ok {
+		return log, nil
+	}
+	var log []wireMsg
+	var herr error
+	synctest.Test(t, func(t *testing.T) {
+		adv := newAdversary(0, nil)
+		rc := &harness.RunCtx{T: t, Seed: seed, Params: params}
+		res := sc.run(rc, adv)
+		if res.harnessErr != nil {
+			herr = res.harnessErr
+			return
+		}
+		log = adv.Log
+	})
+	if herr != nil {
+		return nil, herr
+	}
+	invCache[key] = log
+	return log, nil
 }
 
 func posLabel(c sim.ID, ps []sim.ID) string {
@@ -751,11 +828,19 @@ func c04Workload(name string, quickCells int) harness.Workload {
 				c["verif_seed"] = fmt.Sprint(seedInt)
 			}
 			if tier != "thorough" && len(cells) > quickCells {
-				// stratified: keep an evenly spread subset of the (sorted) cell list
+				// stratified: the semantic own-other-coins / own-other-input cells always, plus an
+				// evenly spread subset of the (sorted) list of byte-level cells
 				sort.SliceStable(cells, func(i, j int) bool { return cells[i]["cell"] < cells[j]["cell"] })
-				var sub []map[string]string
-				for k := 0; k < quickCells; k++ {
-					sub = append(sub, cells[k*len(cells)/quickCells])
+				var sub, rest []map[string]string
+				for _, c := range cells {
+					if strings.Contains(c["cell"], "replaymsg:own-") {
+						sub = append(sub, c)
+					} else {
+						rest = append(rest, c)
+					}
+				}
+				for k := 0; k < quickCells && len(rest) > 0; k++ {
+					sub = append(sub, rest[k*len(rest)/quickCells])
 				}
 				cells = sub
 			}
